@@ -9,7 +9,9 @@ package props
 import (
 	"context"
 	"fmt"
+	"runtime"
 	"strings"
+	"sync"
 	"testing"
 	"testing/synctest"
 	"time"
@@ -160,3 +162,154 @@ func TestC09LateAccept(t *testing.T) {
 		})
 	})
 }
+
+// TestC09StalledWriteEnd (REAL time): a generation ends while a write of that generation is stalled
+// inside the transport (the peer stopped reading) and further senders queue behind it. A bubble
+// cannot run this (goroutines waiting on the write lock while a deadline must fire), so the bounds
+// are upper bounds with seconds of slack against a write timeout of 20 s.
+func TestC09StalledWriteEnd(t *testing.T) {
+	ev.Rule("HSMS-SS, both roles, real time: Selected; the peer stops reading (window 0-64 bytes); 1 sender blocks mid-write, 0-3 more senders (sync with/without reply, async) queue behind it; write timeout 20 s, close timeout 1 s, T3 30 s; the generation is then ended by Close / the peer closing (FIN) / the peer resetting. Oracle: every one of those sends returns an error within 3 s (none reports success: the peer never read a byte of them), Close returns within close timeout + 3 s, after Close the state is NotConnected and every socket handed to the library is closed; non-trivial = at least one sender queued behind the stalled one")
+	vt.Check(t, 120, 6000, func(rt *rapid.T) {
+		active := rapid.Bool().Draw(rt, "active")
+		window := rapid.SampledFrom([]int{0, 5, 14, 64}).Draw(rt, "window")
+		extra := rapid.IntRange(0, 3).Draw(rt, "queued")
+		end := rapid.SampledFrom([]string{"close", "close", "peer-close", "peer-reset"}).Draw(rt, "end")
+		kinds := make([]string, extra)
+		for i := range kinds {
+			kinds[i] = rapid.SampledFrom([]string{"syncW", "syncNoW", "async"}).Draw(rt, "kind")
+		}
+		w, err := newWorld(worldOpt{active: active, connOpts: []hsms.ConnOption{hsms.WithT3(30 * time.Second), hsms.WithT5(50 * time.Millisecond), hsms.WithT6(5 * time.Second),
+			hsms.WithT7(10 * time.Second), hsms.WithT8(5 * time.Second), hsms.WithWriteTimeout(20 * time.Second), hsms.WithCloseTimeout(time.Second), hsms.WithReconnectBackoff(20*time.Millisecond, 2)}})
+		if err != nil {
+			rt.Fatalf("VERIF-INFRA: %v", err)
+		}
+		w.realTime = true
+		var hist []string
+		var hmu sync.Mutex
+		t0 := time.Now()
+		logf := func(f string, a ...any) {
+			hmu.Lock()
+			hist = append(hist, fmt.Sprintf("+%4dms ", time.Since(t0).Milliseconds())+fmt.Sprintf(f, a...))
+			hmu.Unlock()
+		}
+		fail := func(f string, a ...any) {
+			buf := make([]byte, 1<<19)
+			n := runtime.Stack(buf, true)
+			hmu.Lock()
+			h := strings.Join(hist, "\n  ")
+			hmu.Unlock()
+			rt.Fatalf("C09 violated (active=%v window=%d queued=%v end=%s): %s\nhistory:\n  %s\ngoroutines:\n%s", active, window, kinds, end, fmt.Sprintf(f, a...), h, buf[:n])
+		}
+		if err := w.conn.Open(context.Background(), hsms.OpenBackground); err != nil {
+			rt.Fatalf("VERIF-INFRA: open: %v", err)
+		}
+		p, err := w.peerUp(5 * time.Second)
+		if err != nil {
+			rt.Fatalf("VERIF-INFRA: %v", err)
+		}
+		closed := make(chan struct{})
+		defer func() {
+			p.Close()
+			if w.ln != nil {
+				_ = w.ln.Close()
+			}
+			go func() { _ = w.conn.Close(); close(closed) }()
+			select {
+			case <-closed:
+			case <-time.After(5 * time.Second):
+			}
+		}()
+		if err := w.selectAsPeer(p, 0x5e1ec7); err != nil {
+			rt.Fatalf("VERIF-INFRA: select: %v", err)
+		}
+		if !waitState(w.conn, hsms.SelectedState, 3*time.Second) {
+			rt.Fatalf("VERIF-INFRA: never Selected")
+		}
+		p.C.SetInboundWindow(window)
+		p.C.StallInbound(true)
+		type res struct {
+			kind string
+			err  error
+			at   time.Time
+		}
+		results := make(chan res, 8)
+		send := func(kind string) {
+			ctx, cancel := ctxT(40 * time.Second)
+			defer cancel()
+			var e error
+			body := secs2.A(strings.Repeat("stalled ", 64))
+			switch kind {
+			case "syncW":
+				_, e = w.conn.SendDataMessage(ctx, 1, 1, true, body)
+			case "syncNoW":
+				_, e = w.conn.SendDataMessage(ctx, 1, 1, false, body)
+			default:
+				e = w.conn.SendDataMessageAsync(ctx, 1, 1, false, body)
+				if e == nil {
+					e = errAsyncAccepted
+				}
+			}
+			results <- res{kind, e, time.Now()}
+		}
+		go send("syncNoW")
+		time.Sleep(20 * time.Millisecond) // the first sender is inside the transport write now
+		for _, k := range kinds {
+			go send(k)
+		}
+		time.Sleep(20 * time.Millisecond)
+		logf("1 sender mid-write, %d behind it", extra)
+		endAt := time.Now()
+		closeRes := make(chan error, 1)
+		switch end {
+		case "close":
+			go func() { closeRes <- w.conn.Close() }()
+		case "peer-close":
+			_ = p.C.Close()
+		case "peer-reset":
+			p.C.Reset()
+			_ = p.C.Close()
+		}
+		pendingN := 1 + extra
+		deadline := time.After(3 * time.Second)
+		for i := 0; i < pendingN; i++ {
+			select {
+			case r := <-results:
+				logf("%s returned %v %v after the generation ended", r.kind, r.err, r.at.Sub(endAt).Round(time.Millisecond))
+				if r.err == nil {
+					fail("a %s send returned success although the peer never read a byte of it", r.kind)
+				}
+			case <-deadline:
+				fail("%d of %d sends of the ended generation (mid-write or queued for the write lock) have not returned 3 s after %s (write timeout is 20 s)", pendingN-i, pendingN, end)
+			}
+		}
+		if end == "close" {
+			select {
+			case e := <-closeRes:
+				if e != nil {
+					fail("Close returned %v", e)
+				}
+			case <-time.After(4 * time.Second):
+				fail("Close has not returned 4 s after it was called (close timeout 1 s, write timeout 20 s)")
+			}
+			if got := w.conn.State(); got != hsms.NotConnectedState {
+				fail("State()=%v after Close", got)
+			}
+			dl := time.Now().Add(2 * time.Second)
+			for len(w.leaked()) > 0 && time.Now().Before(dl) {
+				time.Sleep(5 * time.Millisecond)
+			}
+			if l := w.leaked(); len(l) > 0 {
+				fail("still open after Close: %v", l)
+			}
+		}
+		role := "passive"
+		if active {
+			role = "active"
+		}
+		ev.Case(extra > 0, fmt.Sprint(active, window, kinds, end), func() any { return hist }, "c09c:end:"+end, "c09c:role:"+role)
+	})
+}
+
+// errAsyncAccepted marks an async send that was accepted into the queue (its frame can only be
+// discarded when the generation ends; the call itself has nothing more to report).
+var errAsyncAccepted = fmt.Errorf("accepted into the send queue")
